@@ -33,7 +33,7 @@ use std::time::Instant;
 
 #[path = "../../ctgen/src/common.rs"]
 mod ctcommon;
-use ctcommon::{err_lines, lex_line, lf, nd, value_line_node, value_line_t, Lx, LT, T};
+use ctcommon::{err_lines, lex_line, lf, nd, value_line_node, value_line_t, zero_width_variant, Lx, LT, T};
 
 const TPL_CARGO: &str = include_str!("../../ctgen/Cargo.toml");
 const TPL_BUILD: &str = include_str!("../../ctgen/build.rs");
@@ -447,7 +447,7 @@ fn wrapper_answer(gen: &str, wrapper_no: usize, syms: &[(u8, usize)]) -> String 
             Some(e) => e,
             None => return "panic".to_string(),
         };
-        let val = if blk.contains("AStackType::Lexeme(l)") && blk.contains("ifl.faulty()") {
+        let val = if blk.contains("AStackType::Lexeme(l)") && (blk.contains("ifl.faulty(){") || blk.contains("if!l.faulty(){")) {
             // `if l.faulty() { Err(l) } else { Ok(l) }`
             let f = blk.find("l.faulty()").unwrap();
             let after = &blk[f..];
@@ -660,7 +660,11 @@ fn lex_table(variant: usize) -> Vec<(&'static str, Vec<&'static str>)> {
         0 => vec![("a", vec!["a"]), ("b", vec!["b"]), ("c", vec!["c"]), ("d", vec!["d"]), ("e", vec!["e"])],
         1 => vec![("[0-9]+", vec!["0", "42", "007"]), ("[a-z]+", vec!["x", "foo", "\u{e9}t\u{e9}"]), ("\\+", vec!["+"]), ("\\(", vec!["("]), ("\\)", vec![")"])],
         2 => vec![("if", vec!["if"]), ("[a-z]+", vec!["i", "iff", "x", "else"]), ("[0-9]+", vec!["1", "23"]), ("==", vec!["=="]), ("=", vec!["="])],
-        _ => vec![("a", vec!["a", "A"]), ("b+", vec!["b", "BB", "bBb"]), ("c", vec!["c"]), ("\"[^\"]*\"", vec!["\"\"", "\"q r\""]), ("\u{e9}", vec!["\u{e9}"])],
+        3 => vec![("a", vec!["a", "A"]), ("b+", vec!["b", "BB", "bBb"]), ("c", vec!["c"]), ("\"[^\"]*\"", vec!["\"\"", "\"q r\""]), ("\u{e9}", vec!["\u{e9}"])],
+        // anchors with `!multi_line`: `$` and `^` then refer to the whole input, not to its lines
+        4 => vec![("[a-z]+$", vec!["x", "foo"]), ("[a-z]+", vec!["y", "bar"]), ("[0-9]+", vec!["1", "23"]), (";", vec![";"]), ("^#", vec!["#"])],
+        // `.` with `!dot_matches_new_line`: the skipped `%.*` rule (below) ends at the end of the line
+        _ => vec![("a", vec!["a"]), ("b", vec!["b"]), ("c.?", vec!["c", "cx"]), ("d", vec!["d"]), ("e", vec!["e"])],
     }
 }
 
@@ -668,6 +672,12 @@ fn render_lexer(variant: usize, ntoks: usize, comments: bool) -> String {
     let mut s = String::new();
     if variant == 3 {
         s.push_str("%grmtools{case_insensitive}\n");
+    }
+    if variant == 4 {
+        s.push_str("%grmtools{!multi_line}\n");
+    }
+    if variant == 5 {
+        s.push_str("%grmtools{!dot_matches_new_line}\n");
     }
     if comments {
         s.push_str("%x COMMENT\n");
@@ -684,6 +694,9 @@ fn render_lexer(variant: usize, ntoks: usize, comments: bool) -> String {
     }
     if comments {
         s.push_str("<COMMENT,INITIAL>/\\* <+COMMENT>;\n<COMMENT>\\*/ <-COMMENT>;\n<COMMENT>[^*/]+ ;\n<COMMENT>[*/] ;\n");
+    }
+    if variant == 5 {
+        s.push_str("%.* ;\n");
     }
     s.push_str("[ \\t\\n]+ ;\n");
     s
@@ -818,6 +831,10 @@ fn render_input(toks: &[usize], variant: usize, comments: bool, rng: &mut Rng) -
         if (comments || variant == 1) && rng.chance(1, 12) {
             s.push_str("zz ");
         }
+        if variant == 5 && rng.chance(1, 5) {
+            // a to-end-of-line comment (or, should `.` match a newline, a to-end-of-input one)
+            s.push_str("% a b\n");
+        }
         if comments && rng.chance(1, 8) {
             // plain, nested (the opening rule is reached while COMMENT is active) and doubly nested
             s.push_str(*rng.pick(&["/* c * / */ ", "/* c * / */ ", "/* x /* y */ z */ ", "/* /* /* */ */ w */ "]));
@@ -931,7 +948,7 @@ fn candidate(seed: u64, idx: usize, attempt: u64, thorough: bool) -> Option<Pair
         }
         let tags: Vec<Vec<String>> = g.rules.iter().map(|r| r.iter().map(|_| tag_text(&mut rng)).collect()).collect();
         let y = render_yacc(&g, st.yk, st.param, &tags, &mut rng);
-        let variant = if idx < 4 { idx } else { rng.below(4) };
+        let variant = if idx < 6 { [0, 4, 5, 3, 1, 2][idx] } else { rng.below(6) };
         let comments = rng.chance(1, 3);
         let l = render_lexer(variant, g.ntoks, comments);
         // both pipelines must accept the pair, and the grammar should have sentences
@@ -1057,9 +1074,16 @@ fn rt_blocks(p: &Pair) -> Result<Vec<Vec<String>>, String> {
     }
     let mut blocks = Vec::new();
     for (j, inp) in p.inputs.iter().enumerate() {
-        let mut b = vec![header(p.idx, j)];
-        let lexer = ld.lexer(inp);
-        b.push(lex_line(&lexer, &|t| grm.token_epp(t).map(|s| s.to_string())));
+        let base_lexer = ld.lexer(inp);
+        let mut lexers = vec![(j, base_lexer)];
+        if j % 2 == 0 {
+            if let Some(z) = zero_width_variant(&lexers[0].1, inp) {
+                lexers.push((j + 1000, z));
+            }
+        }
+        for (jj, lexer) in lexers.iter() {
+        let mut b = vec![header(p.idx, *jj)];
+        b.push(lex_line(lexer, &|t| grm.token_epp(t).map(|s| s.to_string())));
         let pb = RTParserBuilder::new(&grm, &stable).recoverer(rk);
         let t0 = Instant::now();
         match p.st.yk {
@@ -1083,18 +1107,18 @@ fn rt_blocks(p: &Pair) -> Result<Vec<Vec<String>>, String> {
                     })
                     .collect();
                 let refs: Vec<&dyn Fn(RIdx<u32>, &dyn NonStreamingLexer<LT>, Span, std::vec::Drain<AStackType<Lx, T>>, usize) -> T> = boxed.iter().map(|b| &**b).collect();
-                let (v, errs) = pb.parse_actions(&lexer, &refs, if p.st.param { 1000usize } else { 0 });
+                let (v, errs) = pb.parse_actions(lexer, &refs, if p.st.param { 1000usize } else { 0 });
                 b.push(value_line_t(&v));
                 b.extend(err_lines(&errs));
             }
             "generic" => {
                 #[allow(deprecated)]
-                let (v, errs) = pb.parse_map(&lexer, &|lexeme| Node::Term { lexeme }, &|ridx, nodes| Node::Nonterm { ridx, nodes });
+                let (v, errs) = pb.parse_map(lexer, &|lexeme| Node::Term { lexeme }, &|ridx, nodes| Node::Nonterm { ridx, nodes });
                 b.push(value_line_node(&v));
                 b.extend(err_lines(&errs));
             }
             _ => {
-                let errs = pb.parse_map(&lexer, &|_| (), &|_, _| ()).1;
+                let errs = pb.parse_map(lexer, &|_| (), &|_, _| ()).1;
                 b.extend(err_lines(&errs));
             }
         }
@@ -1102,6 +1126,7 @@ fn rt_blocks(p: &Pair) -> Result<Vec<Vec<String>>, String> {
             b.push("SLOW".to_string());
         }
         blocks.push(b);
+        }
     }
     Ok(blocks)
 }
@@ -1122,25 +1147,29 @@ fn pairs_rs(pairs: &[Pair]) -> String {
         s.push_str("        ];\n");
         s.push_str(&format!("        let ld = p{}_l::lexerdef();\n", i));
         s.push_str("        for (j, inp) in inputs.iter().enumerate() {\n");
-        s.push_str(&format!("            println!(\"== pair {} input {{}}\", j);\n", i));
-        s.push_str("            let lexer = ld.lexer(inp);\n");
-        s.push_str(&format!("            println!(\"{{}}\", lex_line(&lexer, &|t| p{}_y::token_epp(t).map(|s| s.to_string())));\n", i));
+        s.push_str("            let base_lexer = ld.lexer(inp);\n");
+        s.push_str("            let mut lexers = vec![(j, base_lexer)];\n");
+        s.push_str("            if j % 2 == 0 { if let Some(z) = zero_width_variant(&lexers[0].1, inp) { lexers.push((j + 1000, z)); } }\n");
+        s.push_str("            for (jj, lexer) in lexers.iter() {\n");
+        s.push_str(&format!("            println!(\"== pair {} input {{}}\", jj);\n", i));
+        s.push_str(&format!("            println!(\"{{}}\", lex_line(lexer, &|t| p{}_y::token_epp(t).map(|s| s.to_string())));\n", i));
         s.push_str("            let t0 = std::time::Instant::now();\n");
         match p.st.yk {
             "grmtools" | "useraction" => {
-                s.push_str(&format!("            let (v, errs): (Option<T>, _) = p{}_y::parse(&lexer{});\n", i, if p.st.param { ", 1000" } else { "" }));
+                s.push_str(&format!("            let (v, errs): (Option<T>, _) = p{}_y::parse(lexer{});\n", i, if p.st.param { ", 1000" } else { "" }));
                 s.push_str("            println!(\"{}\", value_line_t(&v));\n");
             }
             "generic" => {
-                s.push_str(&format!("            let (v, errs) = p{}_y::parse(&lexer);\n", i));
+                s.push_str(&format!("            let (v, errs) = p{}_y::parse(lexer);\n", i));
                 s.push_str("            println!(\"{}\", value_line_node(&v));\n");
             }
             _ => {
-                s.push_str(&format!("            let errs = p{}_y::parse(&lexer);\n", i));
+                s.push_str(&format!("            let errs = p{}_y::parse(lexer);\n", i));
             }
         }
         s.push_str("            for l in err_lines(&errs) { println!(\"{}\", l); }\n");
         s.push_str("            if t0.elapsed().as_millis() > 200 { println!(\"SLOW\"); }\n");
+        s.push_str("            }\n");
         s.push_str("        }\n    }\n}\n");
     }
     s.push_str("pub fn run_all() {\n");
@@ -1334,31 +1363,58 @@ fn run_tv(a: &Args, out: &mut Out, which: &[usize]) {
                 (_, Err(pn)) => format!("fail run-time pipeline panicked: {}", pn),
                 (_, Ok(Err(e))) => format!("fail {}", e),
                 (Ok(_), Ok(Ok(blocks))) => {
-                    let want = &blocks[j];
-                    match ct_blocks.get(&(p.idx, j)) {
-                        None => "fail no output of the generated program for this input".to_string(),
-                        Some(got) => {
-                            if want.iter().any(|l| l == "SLOW") || got.iter().any(|l| l == "SLOW") {
-                                out.count("tv.inconclusive_slow_parse");
-                                "ok inconclusive (a parse took > 200 ms: the recovery time budget may differ)".to_string()
-                            } else if want == got {
-                                "ok".to_string()
-                            } else {
-                                let k = want.iter().zip(got.iter()).position(|(x, y)| x != y).unwrap_or(want.len().min(got.len()));
-                                format!(
-                                    "fail compile-time and run-time differ at line {}: compile-time {:?} run-time {:?}",
-                                    k,
-                                    got.get(k).map(|s| s.as_str()).unwrap_or("<missing>"),
-                                    want.get(k).map(|s| s.as_str()).unwrap_or("<missing>")
-                                )
+                    // blocks by input number (1000 + j = the same text behind the hand-written lexer with
+                    // zero-length real lexemes)
+                    let rtm: BTreeMap<usize, &Vec<String>> = blocks
+                        .iter()
+                        .filter_map(|b| b.first().and_then(|h| h.rsplit(' ').next()).and_then(|n| n.parse::<usize>().ok()).map(|n| (n, b)))
+                        .collect();
+                    let mut verdict = "ok".to_string();
+                    for jj in [j, j + 1000] {
+                        let want = match rtm.get(&jj) {
+                            Some(w) => *w,
+                            None => continue,
+                        };
+                        if jj >= 1000 {
+                            out.count("tv.zero_width_lexeme_variants");
+                        }
+                        let what = if jj >= 1000 { " (hand-written lexer with zero-length real lexemes)" } else { "" };
+                        let v = match ct_blocks.get(&(p.idx, jj)) {
+                            None => format!("fail no output of the generated program for this input{}", what),
+                            Some(got) => {
+                                if want.iter().any(|l| l == "SLOW") || got.iter().any(|l| l == "SLOW") {
+                                    out.count("tv.inconclusive_slow_parse");
+                                    "ok inconclusive (a parse took > 200 ms: the recovery time budget may differ)".to_string()
+                                } else if want == got {
+                                    "ok".to_string()
+                                } else {
+                                    let k = want.iter().zip(got.iter()).position(|(x, y)| x != y).unwrap_or(want.len().min(got.len()));
+                                    format!(
+                                        "fail compile-time and run-time differ{} at line {}: compile-time {:?} run-time {:?}",
+                                        what,
+                                        k,
+                                        got.get(k).map(|s| s.as_str()).unwrap_or("<missing>"),
+                                        want.get(k).map(|s| s.as_str()).unwrap_or("<missing>")
+                                    )
+                                }
                             }
+                        };
+                        if v.starts_with("fail") || (verdict == "ok" && v != "ok") {
+                            verdict = v;
+                        }
+                        if verdict.starts_with("fail") {
+                            break;
                         }
                     }
+                    verdict
                 }
             };
             out.imp(id, "H", &verdict);
             if let Ok(Ok(blocks)) = &rt {
-                let b = &blocks[j];
+                let b = match blocks.iter().find(|b| b.first().map(|h| h == &header(p.idx, j)).unwrap_or(false)) {
+                    Some(b) => b,
+                    None => continue,
+                };
                 if b.iter().any(|l| l.starts_with("err parse")) {
                     out.count("tv.input.parse_error");
                     if b.iter().any(|l| l.contains("set [") && !l.contains("set []")) {
